@@ -207,11 +207,57 @@ def r5(rep, prog):
                   site=site(b, blk) if "lib.rs:1 " not in site(b, blk) else b.span)
 
 
+def r6(rep, prog):
+    """an upper bound is not saturated into the domain"""
+    import re
+    from ..rules import dominating_guards
+    R = "C08-R6"
+    rep.rule(R, "an upper bound below the domain means an empty range: where the codecs shift a requested value range into their own domain (`bound - min_value`), saturating the LOWER bound at 0 is harmless, but an UPPER bound that saturates turns the empty range `end < min_value` into `0..=0`, i.e. 'value == min_value'. Rule: in bitpacker / columnar, a saturating_sub whose operand is the end() of a RangeInclusive and whose result becomes the end of a new RangeInclusive is dominated by a test that involves that end() (the `end < min_value => None` early exit); a difference that is only compared (a size) is not a bound")
+    END = set(prog.names(r"^core::ops::range::RangeInclusive::<Idx>::end$"))
+    ACC = set(prog.names(r"^core::ops::range::RangeInclusive::<Idx>::(start|end)$"))
+    NEW = set(prog.names(r"^core::ops::range::RangeInclusive::<Idx>::new$"))
+    SAT = re.compile(r"::saturating_sub$")
+    n = n_scan = 0
+    for b in prog.bodies.values():
+        if b.kind in ("const", "static", "promoted") or "::tests::" in b.id or "::test::" in b.id or b.crate not in ("tantivy_bitpacker", "tantivy_columnar"):
+            continue
+        n_scan += 1
+        sats = {}
+        for bi, t in b.calls():
+            f = t.get("res") or t.get("f") or ""
+            if SAT.search(f) and op_local(t["args"][0]) is not None:
+                lv = provenance(b, op_local(t["args"][0]))
+                if any(x[0] == "call" and x[1] in END for x in lv):
+                    sats[bi] = f
+        if not sats:
+            continue
+        for bi, t in b.calls():
+            f = t.get("res") or t.get("f") or ""
+            if f not in NEW or len(t["args"]) < 2 or op_local(t["args"][1]) is None:
+                continue
+            lv = provenance(b, op_local(t["args"][1]))
+            for x in lv:
+                if x[0] == "call" and len(x) > 2 and x[2] in sats and SAT.search(x[1]):
+                    n += 1
+                    sb_ = x[2]
+                    guarded = False
+                    for gb, through, gl in dominating_guards(b, sb_):
+                        glv = provenance(b, gl)
+                        if any(y[0] == "call" and y[1] in END for y in glv):
+                            guarded = True
+                    rep.check(guarded, R, "upper bound shifted by saturating_sub in %s" % short(b.id), "dominated by a test of the range's end()",
+                              "`%s` computes the end of the range it looks up as `range.end().saturating_sub(..)` without first testing end() against the subtrahend: a requested range that lies entirely below the "
+                              "column's minimum becomes `0..=0` and matches every row that holds the minimum (get_docids_for_value_range(0..=5) on a column [10, 11, 12] returns the row of 10)" % b.id, site=site(b, sb_))
+    rep.floor(R, "codec bodies scanned", n_scan, 400)
+    rep.floor(R, "upper bounds shifted with saturating_sub", n, 1)
+
+
 def run(rep, prog, tier):
     r2(rep, prog)
     r3(rep, prog)
     r4(rep, prog)
     r5(rep, prog)
+    r6(rep, prog)
     R = "C08-R1"
     rep.rule(R, "every (to_code, try_from_code) pair of the columnar format is mutually inverse on all variants; COLUMN_TYPES[i] has discriminant i and covers the enum; ALL_U64_CODEC_TYPES is complete; the current format version is accepted by the reader")
     rep.not_decided += ["codec arithmetic, optional / multivalued indexes, merge (values)"]
